@@ -1751,16 +1751,30 @@ _NATIVE_METHODS = {
 
 def _atext_method(interp, text, name, args):
     if name == "strip":
-        if text.kind in (AText.EMPTY, AText.BLANKS):
-            return AText(AText.EMPTY, text.name + ".strip", origin=text, chars=[] if text.chars is not None else None)
-        chars = None
-        if text.chars is not None:
-            chars = list(text.chars)
-            while chars and getattr(chars[0], "blank", False):
-                chars.pop(0)
-            while chars and getattr(chars[-1], "blank", False):
-                chars.pop()
-        return AText(AText.TEXT, text.name + ".strip", origin=text, chars=chars)
+        # characters carry ``blank`` (the blank itself) or ``whitespace`` (tab, form feed, no-break space ...): strip()
+        # removes both kinds, strip(" ") only blanks
+        only_blanks = bool(args) and args[0] == " "
+        if args and not only_blanks:
+            raise Undecided("strip(%r) on abstract text" % (args[0],))
+
+        def strippable(char):
+            return getattr(char, "blank", False) or (not only_blanks and getattr(char, "whitespace", False))
+
+        if text.chars is None:
+            if only_blanks:
+                raise Undecided("strip(' ') on abstract text without character model")
+            if text.kind in (AText.EMPTY, AText.BLANKS):
+                return AText(AText.EMPTY, text.name + ".strip", origin=text, chars=None)
+            return AText(AText.TEXT, text.name + ".strip", origin=text, chars=None)
+        chars = list(text.chars)
+        while chars and strippable(chars[0]):
+            chars.pop(0)
+        while chars and strippable(chars[-1]):
+            chars.pop()
+        if not chars:
+            return AText(AText.EMPTY, text.name + ".strip", origin=text, chars=[])
+        kind = AText.BLANKS if all(getattr(c, "blank", False) or getattr(c, "whitespace", False) for c in chars) else AText.TEXT
+        return AText(kind, text.name + ".strip", origin=text, chars=chars)
     if name in ("lower", "upper"):
         hook = interp.externals.get("text_case")
         if hook is not None:
